@@ -20,7 +20,7 @@ def main():
     pid, wt = a[0], a[1]
     name = a[a.index("--name") + 1] if "--name" in a else "1"
     props = a[a.index("--props") + 1].split(",") if "--props" in a else ALL
-    dest = os.path.join(ROOT, "benign", f"{pid}_{name}")
+    dest = os.path.join(ROOT, os.environ.get("BENIGN_DIR", "benign"), f"{pid}_{name}")
     os.makedirs(dest, exist_ok=True)
     for f in ("patch.diff", "demo.py", "meta.json"):
         shutil.copy(os.path.join(wt, "seeded", f), os.path.join(dest, f))
